@@ -123,7 +123,7 @@ def gen_spec(seed, tier):
 
 
 def cases(tier, sd):
-    n = 64 if tier == "quick" else 480
+    n = 64 if tier == "quick" else 1200
     return [dict(seed=10000 * sd + i) for i in range(n)]
 
 
